@@ -1,5 +1,9 @@
 //! Correspondence harness of property C20 (stub).
 use mzkh::Ctx;
+#[allow(unused_imports)]
+use midnight_aggregator::verif_hooks::{ipa_prove, ipa_verify, ipa_log_start, ipa_log_take};
+#[allow(unused_imports)]
+use midnight_circuits::verifier::verif_hooks::{transcript_log_start, transcript_log_take, TranscriptEvent};
 
 fn main() {
     let ctx = Ctx::from_args("C20");
